@@ -99,6 +99,8 @@ PROBES = ["aB_c d'e\n<f>&%41+%2541 1234567.5", "Hello_World %3C%2B 9999",
           "x\r\ny'z\x00q\x1a 12345", "1234567", "-1234567.891", "a+b c%20d",
           "%27_%0A%5F é", "<1000000>'_' %26amp;"]
 
+# characters whose case mappings do not round-trip (or change the length)
+CASEFUL = "stra\xdfe_\u01c6 300\u212a \u0149\ufb01x \u0130i'\u03c2 \u1e9e%41"
 _ORDER = {}
 
 
@@ -481,6 +483,7 @@ def strategy():
     frag = st.sampled_from(['a', 'B', '_', ' ', '  ', "'", "''", '\n', '\r\n',
                             '\0', '\x1a', '%41', '%2541', '%3C', '+', '<', '&',
                             '"x"', '1', '1234', '5678901', '.5', 'é', 'ß',
+                            '\u212a', '\ufb01', '\u0130', '\u01c6', '\u0149',
                             '中', 'word ', 'ab_cd', '%', '%%', ';'])
     text = st.lists(frag, max_size=10).map(''.join)
     digits = st.text('0123456789', min_size=1, max_size=12)
@@ -580,7 +583,7 @@ def run_shard(shard):
                 acc.fail(bad[0], case, bad[1])
         return acc.result()
     if kind == 'subsets':
-        vals = PROBES[:3]
+        vals = PROBES[:3] + [CASEFUL]
         for mods in itertools.combinations(MODS, shard['r']):
             for vi, v in enumerate(vals):
                 case = ['subset', list(mods), vi]
@@ -638,7 +641,7 @@ def replay(case):
     if isinstance(case, list):
         if case[0] == 'order-inference':
             return problems[0] if problems else None
-        mods, v = case[1], PROBES[case[2]]
+        mods, v = case[1], (PROBES[:3] + [CASEFUL])[case[2]]
         got = render_opts(list(mods), dict(x=v))
         exp = fold(mods, v, order)
         if got != exp:
